@@ -41,6 +41,10 @@ pub enum Fault {
     JunkClose,
     /// junk lines followed by well-formed frames on the same connection (used by C13's TCP sub-check)
     JunkThenFrames,
+    /// the port stays closed for 6.5 s: two connection attempts in a row are refused
+    LongRefuse,
+    /// accept, deliver a frame, keep the connection open for 5.5 s, then close (a feed that ran for a while)
+    HoldFrames,
 }
 
 fn all_faults() -> Vec<Fault> {
@@ -148,7 +152,7 @@ pub fn check(seq: &[Fault], case_id: u64) -> Result<Outcome, String> {
     };
     l.set_nonblocking(true).map_err(|e| e.to_string())?;
     let mut peer = Peer { port, listener: Some(l) };
-    let starts_refused = seq.first() == Some(&Fault::Refuse);
+    let starts_refused = matches!(seq.first(), Some(Fault::Refuse) | Some(Fault::LongRefuse));
     if starts_refused {
         peer.close();
     }
@@ -198,11 +202,11 @@ fn drive(seq: &[Fault], peer: &mut Peer, child: &mut Child, outpath: &std::path:
     let steps: Vec<Option<Fault>> = seq.iter().map(|f| Some(*f)).chain(std::iter::once(None)).collect();
     while i < steps.len() {
         let step = steps[i];
-        if step == Some(Fault::Refuse) {
+        if step == Some(Fault::Refuse) || step == Some(Fault::LongRefuse) {
             // the port is closed already (closed before the previous connection ended, or before start)
             disruptive += 1;
             if !learned.is_empty() { learned_before_disruption = learned.len(); }
-            std::thread::sleep(Duration::from_millis(1500));
+            std::thread::sleep(Duration::from_millis(if step == Some(Fault::LongRefuse) { 6500 } else { 1500 }));
             alive(child, "while its connection attempts were being refused")?;
             peer.open().map_err(|e| format!("harness: cannot re-open the port: {}", e))?;
             i += 1;
@@ -216,12 +220,16 @@ fn drive(seq: &[Fault], peer: &mut Peer, child: &mut Child, outpath: &std::path:
         };
         if let Some(t0) = refused_at.take() {
             let waited = t0.elapsed().as_secs_f64();
+            let long = i > 0 && steps[i - 1] == Some(Fault::LongRefuse);
+            if long && waited < 9.5 {
+                return Err(format!("the port was closed for 6.5 s (two refused attempts) but the next connection arrived after {:.2} s: a ~5 s pause after each failed attempt is missing", waited));
+            }
             if waited < 4.5 {
                 return Err(format!("after a refused connection attempt the next connection arrived after {:.2} s: the ~5 s pause is missing", waited));
             }
         }
         alive(child, "after connecting")?;
-        let next_is_refuse = steps.get(i + 1).copied().flatten() == Some(Fault::Refuse);
+        let next_is_refuse = matches!(steps.get(i + 1).copied().flatten(), Some(Fault::Refuse) | Some(Fault::LongRefuse));
         match step {
             Some(Fault::AcceptClose) => {
                 if next_is_refuse { peer.close(); refused_at = Some(Instant::now()); }
@@ -237,6 +245,20 @@ fn drive(seq: &[Fault], peer: &mut Peer, child: &mut Child, outpath: &std::path:
                     return Err(format!("a well-formed frame sent as the first line of a new connection (step {} of {:?}) was not decoded: aircraft {:06X} never appears", i, seq, a));
                 }
                 learned.push(a);
+                if next_is_refuse { peer.close(); refused_at = Some(Instant::now()); }
+                drop(conn);
+            }
+            Some(Fault::HoldFrames) => {
+                let (a, lines) = new_aircraft(k);
+                k += 1;
+                conn.write_all((lines.join("\n") + "\n").as_bytes()).map_err(|e| format!("harness: write failed: {}", e))?;
+                let _ = conn.flush();
+                if !wait_for(outpath, &format!("{:06X}", a), Duration::from_secs(30)) {
+                    return Err(format!("a well-formed frame sent over a new connection (step {} of {:?}) was not decoded: aircraft {:06X} never appears", i, seq, a));
+                }
+                learned.push(a);
+                std::thread::sleep(Duration::from_millis(5500));
+                alive(child, "while a connection was held open")?;
                 if next_is_refuse { peer.close(); refused_at = Some(Instant::now()); }
                 drop(conn);
             }
@@ -276,7 +298,7 @@ fn drive(seq: &[Fault], peer: &mut Peer, child: &mut Child, outpath: &std::path:
                 learned.push(a);
                 drop(conn);
             }
-            Some(Fault::Refuse) => unreachable!(),
+            Some(Fault::Refuse) | Some(Fault::LongRefuse) => unreachable!(),
             None => {
                 // healthy connection: new aircraft, stays open
                 let (a, lines) = new_aircraft(k);
@@ -344,6 +366,10 @@ fn sequences(c: &mut Ctx) -> Vec<Vec<Fault>> {
             }
         }
     }
+    // feeds that ran for a while before the interruption, and two refused attempts in a row
+    v.push(vec![Fault::HoldFrames, Fault::Refuse]);
+    v.push(vec![Fault::LongRefuse]);
+    v.push(vec![Fault::FramesClose, Fault::LongRefuse]);
     let n_random = c.tier.pick(18usize, 100usize);
     let lens = if c.tier == Tier::Thorough { 4usize..5 } else { 3usize..5 };
     let mut extra = c.draw(n_random, proptest::collection::vec(fault_strategy(), lens));
